@@ -163,7 +163,9 @@ Definition step (s : st) (e : ev) : option st :=
       let x := get s m in
       if negb (gate x) && existsb (Nat.eqb p) (owned x) then Some (mkS (mem s) (hist s) (S (clock s)) (assign_log s))
       else None
-  | Gone m => Some (put s m (mkM PStable true [] (rev_end (get s m))))
+  | Gone m =>
+      (* the process is gone; the coordinator may still count a JoinGroup it sent before *)
+      Some (put s m (mkM (ph (get s m)) true [] (rev_end (get s m))))
   end.
 
 Fixpoint run (s : st) (tr : list ev) : option st :=
